@@ -14,7 +14,7 @@ from .. import simenv
 from ..core import Lab, Violation, exc_violation
 from . import inject_reg as R
 
-RELS = ["byname", "prefix", "both", "absent", "wrongtype", "subclass", "falsy", "preset", "init", "private", "generic", "comp_ref", "wrongtype_prefix", "callable", "shared", "wrongtype_both"]
+RELS = ["byname", "prefix", "both", "absent", "wrongtype", "subclass", "falsy", "preset", "init", "private", "generic", "comp_ref", "wrongtype_prefix", "callable", "shared", "wrongtype_both", "tunable"]
 CTOR_RELS = ["byname", "prefix", "absent", "wrongtype", "comp_earlier", "comp_later", "private", "falsy", "callable", "subclass", "wrongtype_prefix", "wrongtype_both"]
 TYPES = ["Inj", "Other", "int", "str", "tuple", "float"]
 FALSY = {"int": 0, "str": "", "tuple": (), "float": 0.0, "bool": False}
@@ -148,7 +148,7 @@ class Plan:
                 for c in order[: order.index(o)]:
                     avail[c] = ("component", c)
             else:
-                if n.startswith("_") or rel in ("preset", "init"):
+                if n.startswith("_") or rel in ("preset", "init", "tunable"):
                     exp[(o, n)] = ("untouched", rel)
                     continue
                 avail = dict(robot)
@@ -205,6 +205,10 @@ def build(plan):
                 late.append((target, a["n"], int(a["ann"][6:])))
             else:
                 target[a["n"]] = ann_obj(a["ann"])
+            if a["rel"] == "tunable":
+                from magicbot import tunable as _tunable
+
+                presets[a["n"]] = _tunable(0.5)
             if a["rel"] == "preset":
                 (base_presets if (target is bann or a.get("also_on_robot")) else presets)[a["n"]] = ("preset-sentinel", a["n"])
             if a["rel"] == "init":
@@ -306,7 +310,9 @@ def write_mode(mode):
         t = {"List[int]": "typing.List[int]", "Tuple[int, int]": "typing.Tuple[int, int]", "Dict[str, int]": "typing.Dict[str, int]", "partial": "__import__('functools').partial", "Optional[Inj]": "typing.Optional[Inj]", "Union[int, str]": "typing.Union[int, str]"}.get(a["ann"], a["ann"])
         if t.startswith("class:"):
             t = f"Probe.classes[{int(t[6:])}]"
-        if a["rel"] == "preset":
+        if a["rel"] == "tunable":
+            lines.append(f"    {a['n']}: float = __import__('magicbot').tunable(0.5)")
+        elif a["rel"] == "preset":
             lines.append(f"    {a['n']}: {t} = ('preset-sentinel', {a['n']!r})")
         else:
             lines.append(f"    {a['n']}: {t}")
@@ -316,7 +322,7 @@ def write_mode(mode):
 
 
 _I = st.integers
-_ATTR = st.tuples(_I(0, 15), _I(0, 5), _I(0, 3), st.booleans())
+_ATTR = st.tuples(_I(0, 16), _I(0, 5), _I(0, 3), st.booleans())
 _CTOR = st.tuples(_I(0, 11), _I(0, 5))
 _CLASS = st.tuples(st.lists(_ATTR, max_size=4), st.lists(_CTOR, max_size=2), st.lists(_ATTR, max_size=1), st.booleans())
 _CASE = st.tuples(st.lists(_CLASS, min_size=1, max_size=3), st.lists(_I(0, 2), min_size=1, max_size=4), _I(0, 4),
@@ -347,6 +353,8 @@ def decode(code):
             a["ann"] = GENERICS[gen_c]
         elif rel in ("preset", "init") and gen_c == 3:
             a["ann"] = ["Optional[Inj]", "Union[int, str]"][type_c % 2]  # a common way to annotate an attribute with a default
+        elif rel == "tunable":
+            a["ann"] = "float"  # kP: float = tunable(0.5) - an attribute that has a value, not an injection request
         elif rel == "private":
             a["n"] = "_" + n
         elif rel == "shared":
@@ -515,6 +523,8 @@ class C08(Lab):
                             raise Violation("C08/touched/preset", f"{where}: {o}.{n} had a class-level value but is now {got!r}; case: {case}")
                         if kind == "init" and got != ("init-sentinel", n):
                             raise Violation("C08/touched/init", f"{where}: {o}.{n} was assigned in __init__ but is now {got!r}; case: {case}")
+                        if kind == "tunable" and got != 0.5:
+                            raise Violation("C08/touched/tunable", f"{where}: {o}.{n} is an annotated tunable with default 0.5 but reads {got!r}; case: {case}")
                         if kind == "private" and got != "<missing>":
                             raise Violation("C08/touched/private", f"{where}: private attribute {o}.{n} was injected with {got!r}; case: {case}")
 
